@@ -3,5 +3,6 @@ CONSTANTS
   Heights = {0, 1, 2, 3, 4, 5, 6}
   Windows = {1, 2, 3}
   FixedCode = FALSE
+  FlushEvery = 1
 INVARIANTS TypeOK ServesExactlyWindow
 CHECK_DEADLOCK FALSE
